@@ -141,7 +141,41 @@ func init() {
 			return iface{}, true
 		},
 	}
+	// A virtual standard input: the harness hands the bytes over with symSetStdin; reading from an
+	// *os.File (os.Stdin is the only one the code under test can hold: os.Open is not modelled) consumes them.
+	native["(*os.File).Read"] = func(fr *frame, args []value) (value, bool) {
+		buf, ok := args[1].([]value)
+		if !ok {
+			unsupported("(*os.File).Read: buffer")
+		}
+		i := fr.i
+		if len(buf) == 0 {
+			return tuple{0, iface{}}, true
+		}
+		if i.stdinOff >= len(i.stdin) {
+			return tuple{0, ioEOF(fr)}, true
+		}
+		n := copy(buf, i.stdin[i.stdinOff:])
+		i.stdinOff += n
+		return tuple{n, iface{}}, true
+	}
+	native["(*os.File).Close"] = func(fr *frame, args []value) (value, bool) {
+		return iface{}, true
+	}
 	for k, v := range native {
 		externals[k] = v
 	}
+}
+
+// ioEOF: the value of the target program's io.EOF.
+func ioEOF(fr *frame) value {
+	pkg := fr.i.prog.ImportedPackage("io")
+	if pkg == nil {
+		unsupported("io.EOF: package io is not part of the program")
+	}
+	g := pkg.Var("EOF")
+	if g == nil {
+		unsupported("io.EOF not found")
+	}
+	return *fr.i.globals[g]
 }
